@@ -10,7 +10,7 @@ from .drive import Session, _flat, _shape_list
 from .mdl import add, const, mkfunc, mul, q, var
 
 RENAME = {"w": "wealth", "z": "zeta", "h": "health", "e": "educ", "r": "region", "a": "act", "b": "bonus_choice", "c": "cons",
-          "d": "dep", "k": "kappa", "m": "mu", "kb": "kbase", "inc": "income", "bonus": "extra", "tot": "total", "kt": "ktot",
+          "d": "dep", "k": "kappa", "m": "mu", "kb": "kbase", "inc": "income", "net": "netinc", "kn2": "knet", "bonus": "extra", "tot": "total", "kt": "ktot",
           "m_filter": "reg_filter", "s_filter": "adm_filter", "c_filter": "act_filter", "bc_constraint": "budget_constraint",
           "d_constraint": "limit_constraint", "pos_constraint": "floor_constraint", "alive_constraint": "living_constraint", "lb_constraint": "floor2_constraint", "kmin": "kfloor", "utility": "utility"}
 
